@@ -133,7 +133,8 @@ def latmio_dir_connected(R, itr, D=None, seed=None):
                         break
             att += 1
 
-    Rlatt = R[np.ix_(ind_rp[::-1], ind_rp[::-1])]  # reverse random permutation
+    ind_inv = np.argsort(ind_rp)  # inverse of the random permutation
+    Rlatt = R[np.ix_(ind_inv, ind_inv)]  # reverse random permutation
 
     return Rlatt, R, ind_rp, eff
 
@@ -235,7 +236,8 @@ def latmio_dir(R, itr, D=None, seed=None):
                     break
             att += 1
 
-    Rlatt = R[np.ix_(ind_rp[::-1], ind_rp[::-1])]  # reverse random permutation
+    ind_inv = np.argsort(ind_rp)  # inverse of the random permutation
+    Rlatt = R[np.ix_(ind_inv, ind_inv)]  # reverse random permutation
 
     return Rlatt, R, ind_rp, eff
 
@@ -379,7 +381,8 @@ def latmio_und_connected(R, itr, D=None, seed=None):
                         break
             att += 1
 
-    Rlatt = R[np.ix_(ind_rp[::-1], ind_rp[::-1])]
+    ind_inv = np.argsort(ind_rp)  # inverse of the random permutation
+    Rlatt = R[np.ix_(ind_inv, ind_inv)]
     return Rlatt, R, ind_rp, eff
 
 
@@ -491,7 +494,8 @@ def latmio_und(R, itr, D=None, seed=None):
                     break
             att += 1
 
-    Rlatt = R[np.ix_(ind_rp[::-1], ind_rp[::-1])]
+    ind_inv = np.argsort(ind_rp)  # inverse of the random permutation
+    Rlatt = R[np.ix_(ind_inv, ind_inv)]
     return Rlatt, R, ind_rp, eff
 
 
